@@ -66,12 +66,12 @@ def run(tier, seed):
         if is_type:
             typefail += 1
             kinds.add(e["ek"])
+            ck.nontrivial(key)          # a program the checker has to reject
         if errors:
             rejected += 1
             continue
         accepted += 1
         if is_type:
-            ck.nontrivial(key)
             real = f"{r.get('outcome')}: {str(r.get('message'))[:100]}"
             ck.fail(f"C16 {e['ek']} line {e['line']} in {rf.refrun.src_hash(s)}",
                     f"`check` reports no error, yet the program fails with a type-related error ({e['ek']} at line {e['line']}; real run: {real})",
@@ -81,7 +81,7 @@ def run(tier, seed):
     vacuity(accepted > 50 and typefail > 50 and len(kinds) >= 4, f"accepted {accepted}, rejected {rejected}, programs failing type-relatedly {typefail} of kinds {sorted(kinds)}")
     ck.assumptions += ["functions and lambdas of generated programs are fully annotated; local lets are not (the checker infers them)",
                        "programs the reference cannot finish within its fuel are skipped"]
-    return ck.finish(rule="seeded generated programs with injected mistakes (error rate 0.35); judged: those the checker accepts without errors; non-trivial = accepted programs that fail type-relatedly",
+    return ck.finish(rule="seeded generated programs with injected mistakes (error rate 0.35); judged: those the checker accepts without errors; non-trivial = programs that fail type-relatedly in the reference (which the checker therefore has to reject)",
                      extra={"accepted": accepted, "rejected": rejected, "type_related_failures": typefail, "kinds": sorted(kinds)})
 
 
